@@ -13,7 +13,10 @@ def p_roundtrip(s):
         v = Version.from_string(s)
     except ValueError:
         return None
-    p = str(v)
+    try:
+        p = str(v)
+    except Exception as e:  # noqa
+        return '%.40r... (%d characters) is accepted but printing it raises %s' % (s, len(s), type(e).__name__)
     try:
         v2 = Version.from_string(p)
     except ValueError:
@@ -39,7 +42,7 @@ def p_roundtrip(s):
     e, _, rest = t.partition(':') if ':' in t else ('', '', t)
     body = p.partition(':')[2] if ':' in p else p
     ep = p.partition(':')[0] if ':' in p else ''
-    if (int(e) if e else 0) != (int(ep) if ep else 0) or (ep and (ep.startswith('0'))):
+    if (e.lstrip('0') or '0') != (ep.lstrip('0') or '0') or (ep and (ep.startswith('0'))):
         return 'epoch not normalised: %r -> %r' % (s, p)
     if body != rest:
         if not (rest == body + '-0' and '-' not in body):
@@ -60,7 +63,11 @@ def run(ctx):
     ctx.exhaustive.append('all %d strings of length <= %d over 0 1 a - : . ~' % (len(small), ctx.n(6, 7)))
     allc = acc + enrich + small
     bad = ctx.compare('corr:version_roundtrip', [('version_roundtrip', [s]) for s in allc], impl)
-    fails = ctx.prop('prop:roundtrip', allc, p_roundtrip)
+    # epochs around every limit an interpreter puts on converting between integers and digits (4300 by default, 640 at
+    # the least): whatever from_string accepts must print (the model has no such limit: these go to the implementation only)
+    wide = ['%s:%s' % (d * n, rest) for n in (19, 20, 639, 640, 641, 4299, 4300, 4301, 5000, 20000) for d in '91' for rest in ('1.0', '1.0-1', '1-2-0')]
+    wide += ['0' * n + '7:1.0' for n in (640, 4300, 4301)]
+    fails = ctx.prop('prop:roundtrip', allc + wide, p_roundtrip)
     ctx.stream('prop:roundtrip')['accepted'] = sum(1 for s in allc if _ver.valid(s))
     fails.sort(key=lambda f: len(f[0]))
     for x, why in fails[:10]:
